@@ -1928,6 +1928,10 @@ class Node:
         if self._started:
             raise RuntimeError("Cannot start a node twice")
         self._started = True
+        if self.ip_addresses and self.sctp_port and sctp is None:
+            # found out before anything has been bound
+            raise RuntimeError("Node is set to use SCTP, but pysctp is "
+                               "not installed")
 
         if self.ip_addresses and self.tcp_port:
             for ip_addr in self.ip_addresses:
@@ -2013,10 +2017,14 @@ class Node:
                     self.logger.debug(f"{peer} waiting for closure")
                 time.sleep(1)
 
+        # (a node whose `start` failed half-way, e.g. on an address that is in
+        # use, has bound sockets and started applications but no threads)
         self._connection_thread.stop()
-        self._connection_thread.join(self.wakeup_interval + 1)
+        if self._connection_thread.ident is not None:
+            self._connection_thread.join(self.wakeup_interval + 1)
         self._stat_collect_thread.stop()
-        self._stat_collect_thread.join(2)
+        if self._stat_collect_thread.ident is not None:
+            self._stat_collect_thread.join(2)
 
         self.logger.debug("closing listening sockets")
         for tcp_socket in self.tcp_sockets:
